@@ -66,8 +66,24 @@ func allowedAddedHeaders(p *Plan) map[string][]string {
 // carry (self-identifying X-Sim-Echo): key isolation, status, headers, body.
 // Violations are attributed to prop, except key mix-ups which are always C06 when
 // prop is C06 and otherwise reported under prop too (a wrong body is a wrong body).
-func respOracle(prop string) func(o *Outcome) []Violation {
+func respOracle(prop string, only ...string) func(o *Outcome) []Violation {
 	return func(o *Outcome) []Violation {
+		all := respCheck(prop, o)
+		if len(only) == 0 {
+			return all
+		}
+		var out []Violation
+		for _, v := range all {
+			if contains(only, v.Kind) {
+				out = append(out, v)
+			}
+		}
+		return out
+	}
+}
+
+func respCheck(prop string, o *Outcome) []Violation {
+	{
 		var out []Violation
 		added := allowedAddedHeaders(o.Plan)
 		for _, v := range o.Views() {
@@ -83,6 +99,7 @@ func respOracle(prop string) func(o *Outcome) []Violation {
 			}
 			u := v.Up
 			res := r.Res
+			respProbes(o, v)
 			if v.EchoKey != r.Key || u.Key != r.Key {
 				out = append(out, violation(prop, "wrong-key", "response obtained for another key",
 					"client op %d requested %q but received origin reply #%d which was produced for %q", r.Op, r.Key, u.Serial, u.Key))
@@ -208,4 +225,50 @@ func contains(list []string, s string) bool {
 		}
 	}
 	return false
+}
+
+func respProbes(o *Outcome, v *View) {
+	pr := o.Hist.Probes
+	r, u := v.R, v.Up
+	if v.XStatus == "hit" {
+		pr["hits-checked"]++
+		for _, s := range o.Hist.Stores {
+			if s.Task == r.Task && s.Op == "get" && s.Err == "" && s.OutLen > 0 {
+				pr["path:hit-after-reload"]++
+				break
+			}
+		}
+	}
+	if r.ReleasedBy >= 0 {
+		pr["path:waiter"]++
+	}
+	if v.XStatus == "hitForPass" || v.XStatus == "passed" || v.XStatus == "fetching" {
+		pr["path:"+v.XStatus]++
+	}
+	if len(v.OwnUps) > 0 && u.Reply.Enc != "" {
+		pr["enc:"+u.Reply.Enc]++
+	}
+	if r.Res.Header.Get("Content-Encoding") != u.Reply.Enc {
+		pr["transcoded-for-client"]++
+	}
+	if len(u.BodyRaw) == 0 {
+		pr["body:empty"]++
+	}
+	if u.Reply.Class == "rep" && u.Reply.Size >= 5000 {
+		pr["body:>10x"]++
+	}
+	if r.Method == "HEAD" {
+		for _, r2 := range o.Hist.Reqs {
+			if r2.Method == "GET" && r2.Host == r.Host && r2.URI == r.URI {
+				pr["head-and-get-same-url"]++
+				break
+			}
+		}
+	}
+	for _, r2 := range o.Hist.Reqs {
+		if r2.Method == r.Method && r2.Host != r.Host && r2.URI == r.URI {
+			pr["same-path-two-hosts"]++
+			break
+		}
+	}
 }
